@@ -160,6 +160,18 @@ def keys_read(f):
     return out
 
 
+def finders_unmodified(cx, rec, wants):
+    """strings are taken as the document has them: no trimming / case folding / replacing on the way into the model"""
+    F = cx.F
+    for want in wants:
+        g = finder(F, want)
+        rec.site(g, None, '%s reads %s' % (g.name, want))
+        rw = sorted({g.expr_call(bb)[4].get('name') for bb in mirq.real_calls(g)
+                     if re.match(r'^(trim|to_lowercase|to_uppercase|to_ascii|replace|strip_|split|truncate|pop$|remove$|retain$)', g.expr_call(bb)[4].get('name') or '')})
+        rec.need(not rw, 'field-rewritten/' + '/'.join(want), g, None,
+                 'the value of key %s is rewritten (%s) while it is read: the model no longer equals the document' % (want, rw))
+
+
 @TABLE.rule('3', 'K6+K5b', 'reader key table (field <- its own key) and writer key table (same keys; piece length = chunk size; '
             'length = file size; name = file name; pieces = one SHA-1 per chunk in order)', floor=10)
 def r3(cx, rec):
@@ -180,9 +192,7 @@ def r3(cx, rec):
             rec.need(ks == want, 'field-key/' + fld, F.fn(x[1]), None, 'Metainfo.%s is read from keys %s, expected %s' % (fld, ks, want))
         # files: single-file uses find_length + name; multi uses find_files
         fsrc = show(fields.get(V.meta_files(F), ('other', '')))
-    for want in (['info', 'length'], ['info', 'files'], ['info', 'name']):
-        g = finder(F, want)
-        rec.site(g, None, '%s reads %s' % (g.name, want))
+    finders_unmodified(cx, rec, (['info', 'length'], ['info', 'files'], ['info', 'name'], ['announce']))
     # per-file keys in the file-list builder (adaptor chain or explicit loop; fields normalised over the list element)
     fl = [f for f in F.user_fns() if f.locals[0]['ty'] == 'std::vec::Vec<metainfo::File>' and f.argc >= 1 and 'BValue' in f.locals[f.argc]['ty']]
     L = C.one(fl, 'file-list builder (Vec<BValue> -> Vec<File>)')
